@@ -25,6 +25,12 @@ def harnesses(ctx, tier):
                   bounds="ring of 65 slots, head/count/finish tokens symbolic; one call per query (inductive step)",
                   functions=["file_queue_init", "file_queue_put", "file_queue_get", "file_queue_finish"],
                   stubs=["cli_semaphore_* -> counters (wait on 0 = disabled step)", "cli_mutex_* -> held flag with discipline assertions"])]
+    hs.append(Harness(name="H3_consumer_loop", src="c18/consumer.c", unwind=5, timeout=600, mem_gb=12, extra_srcs=["cli/args.c", "cli/common.c"],
+                      unwind_funcs={"file_queue_finish": 40},
+                      desc="scanning_thread over the real queue: with <= 2 queued files, finish signalled and arbitrary scan results, the thread stops only on an empty queue and scans every file once",
+                      bounds="<= 2 queued files, every scan result / open failure symbolic, deadline not reached",
+                      functions=["scanning_thread", "scan_file", "file_queue_get", "file_queue_put", "file_queue_finish"],
+                      stubs=["open/close/time/yr_scanner_scan_fd/yr_scanner_set_timeout", "semaphores = counters"]))
     for h in c10.harnesses(ctx, tier):
         if h.name.startswith("H1_"):
             h.name = "H2_scanner_reuse_" + h.name[3:]
